@@ -406,7 +406,7 @@ func genStructType(r *RNG, depth int) reflect.Type {
 	}
 	fs := make([]reflect.StructField, n)
 	for i := range fs {
-		fs[i] = reflect.StructField{Name: fmt.Sprintf("F%d", i), Type: genFieldType(r, depth)}
+		fs[i] = reflect.StructField{Name: fmt.Sprintf("%s%d", uniPrefix(r), i), Type: genFieldType(r, depth)}
 		if r.Chance(12) {
 			fs[i].Tag = `dials:"-"`
 		} else if r.Chance(20) {
@@ -591,6 +591,7 @@ func checkC01(c *Ctx) {
 		"non-trivial: >= 2 layers and >= 1 skipped field or nested struct; distinct = by canonical case text"
 	n := c.scale(2500, 80000)
 	c01Reuse(c, c.scale(60, 1500))
+	c01Deep(c, c.scale(100, 2500))
 	for i := 0; i < n; i++ {
 		tt := &typeTable{ids: map[reflect.Type]int{}}
 		var T reflect.Type
@@ -681,4 +682,14 @@ func catch(f func()) (p string) {
 	}()
 	f()
 	return ""
+}
+
+// uniPrefix: the first letter of a generated field name.  Exported means "starts with an upper-case LETTER", not with
+// A-Z: names whose initial takes two, three or four bytes of UTF-8 are as exported as the others (and every layer of the
+// library - Pointerify, overlay, deep copy, the Transformer - has to agree on that).
+func uniPrefix(r *RNG) string {
+	if r.Chance(70) {
+		return "F"
+	}
+	return []string{"É", "Ω", "Ṫ", "Ấ", "Ａ", "Ꭰ", "𐐀"}[r.Intn(7)]
 }
